@@ -124,6 +124,16 @@ func c17Render(ctx *core.Ctx, idx int) core.Result {
 			back, _ := run("aton(toa(xin))")
 			return fail(fmt.Sprintf("aton(toa(n)) == n is %s (error %q): toa gives %q, aton gives %s", val.Debug(rt.Value), rt.Err, want, val.Debug(back.Value)))
 		}
+		if x.K == val.Int {
+			// for integers the round trip must give back the very same integer (not a float that compares equal)
+			back, bad := run("aton(toa(xin))")
+			if bad != "" {
+				return fail(bad)
+			}
+			if back.Err != "" || !val.Same(back.Value, x) {
+				return fail(fmt.Sprintf("aton(toa(%s)) = %s", val.Debug(x), val.Debug(back.Value)))
+			}
+		}
 		res.Add("aton_roundtrips", 1)
 	}
 	res.Verdict = core.Held
